@@ -451,6 +451,11 @@ def model_case(case, o) -> Any:
     return [_mops(case["ops"]), case["follow"], [mfm, False, rows[:-1], d, bool(case.get("ro")), _mpre(case.get("pre", []))]], rows[-1], rows[:-1], names
 
 
+def _no_reopen(ops):
+    """A close/reopen step of the shared history generator is a plain boundary for C05."""
+    return [["bnd"] if o[0] == "reopen" else o for o in ops]
+
+
 def _mops(ops):
     """History for the model: a boundary with a refused commit in between, or with a change of the
     session / record class, is a boundary."""
@@ -595,10 +600,11 @@ def gen_cases(ctx) -> List[Dict[str, Any]]:
         keys, attr_keys = pick_keys(rng, 3, 5)
         prefix = targeted(rng, keys, attr_keys) if i < ntarget else None
         n = (len(prefix) + rng.randint(0, 8)) if prefix else rng.randint(3, maxops)
-        ops = _cap_boundaries(ih5lib.gen_history(rng, n, p_bnd=rng.choice([0.1, 0.2, 0.35]), keys=keys, attr_keys=attr_keys,
-                                                 prefix=prefix, values=VALUES, allow_self_copy=(rng.random() < 0.3)))
+        # (ih5lib.gen_history may emit ["reopen", how] steps for C01; a C05 history has its own session ops)
+        ops = _cap_boundaries(_no_reopen(ih5lib.gen_history(rng, n, p_bnd=rng.choice([0.1, 0.2, 0.35]), keys=keys, attr_keys=attr_keys,
+                                                            prefix=prefix, values=VALUES, allow_self_copy=(rng.random() < 0.3))))
         nf = rng.randint(0, 7)
-        full = ih5lib.gen_history(rng, len(ops) + nf, p_bnd=0.0, keys=keys, attr_keys=attr_keys, prefix=ops, values=VALUES)
+        full = _no_reopen(ih5lib.gen_history(rng, len(ops) + nf, p_bnd=0.0, keys=keys, attr_keys=attr_keys, prefix=ops, values=VALUES))
         cls = rng.choice(["IH5Record", "IH5MFRecord"])
         ops = [["cc"] if o[0] == "bnd" and rng.random() < 0.2 else o for o in ops]
         other = {"IH5Record": "IH5MFRecord", "IH5MFRecord": "IH5Record"}
@@ -610,8 +616,8 @@ def gen_cases(ctx) -> List[Dict[str, Any]]:
         mcls = cur if rng.random() < 0.6 else other[cur]
         fcls = mcls if rng.random() < 0.6 else other[mcls]
         ro = rng.random() < 0.25
-        wops = [o for o in ih5lib.gen_history(rng, len(ops) + 3, p_bnd=0.0, keys=keys, attr_keys=attr_keys, prefix=_mops(ops),
-                                              values=VALUES, allow_copy=False)[len(ops):]]
+        wops = [o for o in _no_reopen(ih5lib.gen_history(rng, len(ops) + 3, p_bnd=0.0, keys=keys, attr_keys=attr_keys, prefix=_mops(ops),
+                                              values=VALUES, allow_copy=False))[len(ops):]]
         cases.append({"cls": cls, "mcls": mcls, "fcls": fcls, "ops": ops, "follow": full[len(ops):],
                       "stub": fcls == "IH5MFRecord" and rng.random() < 0.35, "ro": ro, "pre": gen_pre(rng, ro, wops)})
     return cases
